@@ -6,11 +6,12 @@
   type, every store reachable by ANY history of intern / emit(All) / emit(First n) / clear.
   `primitive_refines_spec` transfers them to the concrete model of `GroupValuesPrimitive`
   (hash table of `(group index, hash)` entries, `null_group`, `values` with a placeholder in the
-  NULL slot, the `First(n)` renumbering), for every hash function (collisions included), provided
-  `clear_shrink` also resets `null_group`.  The code does NOT reset it:
-  `primitive_clear_keeps_null_group` is the kernel-checked witness that, as written, a history
-  `intern [NULL]; clear_shrink; intern [NULL]` hands out group id 0 while `len() = 0`
-  (and `bytes_clear_keeps_num_groups` the analogous one for `GroupValuesBytes*::num_groups`).
+  NULL slot, the `First(n)` renumbering, `clear_shrink` resetting `null_group`), for every hash
+  function (collisions included) — this is the code as it stands after /repo commit f8726ff.
+  The pinned upstream `clear_shrink` did NOT reset `null_group`: `primitive_clear_keeps_null_group`
+  is the kernel-checked witness that there a history `intern [NULL]; clear_shrink; intern [NULL]`
+  handed out group id 0 while `len() = 0` (and `bytes_clear_keeps_num_groups` the analogous one for
+  `GroupValuesBytes*::num_groups`); both repaired by f8726ff.
 -/
 import DfModel.Sm.Gv
 import DfModel.Proofs.C13
@@ -123,7 +124,7 @@ end SpecTheorems
 /-! ### the primitive implementation refines the specification -/
 
 /-- **refinement**: from the initial store, over ANY history, for ANY hash function, the concrete
-    model of `GroupValuesPrimitive` (with `clear_shrink` resetting `null_group`) returns exactly what
+    model of `GroupValuesPrimitive` (the current code, `fixClear = true`) returns exactly what
     the specification returns — group ids of every `intern`, the emitted keys of every `emit` — and
     its `len()` is the specification's group count. -/
 theorem primitive_refines_spec (hash : Nat → Nat) (ops : List (Op (Option Nat))) :
@@ -156,8 +157,8 @@ theorem primitive_emit_first_renumbers (hash : Nat → Nat) (s : Prim.St) (h : P
     (Prim.step hash fix s (.emit (.first n))).2 = .keys ((Prim.abs s).take n) :=
   PrimR.emitFirst_refines h fix n hn
 
-/-- the refinement with the code's actual `clear_shrink` (the full statement; FALSE, see below) -/
-def primitive_refines_spec_as_written_statement : Prop :=
+/-- the refinement for the pinned upstream `clear_shrink` (`fixClear = false`; FALSE, see below) -/
+def primitive_refines_spec_upstream_statement : Prop :=
   ∀ (hash : Nat → Nat) (ops : List (Op (Option Nat))),
     (Prim.run hash false Prim.init ops).2 = (Spec.run [] ops).2
 
@@ -183,9 +184,9 @@ theorem prim_run_fix_irrelevant (hash : Nat → Nat) (ops : List (Op (Option Nat
     simp only [Prim.run]
     rw [← prim_step_fix_irrelevant hash s op hs.1, ih _ hs.2]
 
-/-- **proved part for the code as written**: on every history whose `clear`s are safe in the above
-    sense the as-written primitive store returns what the specification returns. -/
-theorem primitive_refines_spec_as_written_partial (hash : Nat → Nat) (ops : List (Op (Option Nat)))
+/-- **what held upstream**: on every history whose `clear`s are safe in the above sense the upstream
+    primitive store already returned what the specification returns. -/
+theorem primitive_refines_spec_upstream_partial (hash : Nat → Nat) (ops : List (Op (Option Nat)))
     (h : ClearsSafe hash Prim.init ops) :
     (Prim.run hash false Prim.init ops).2 = (Spec.run [] ops).2 := by
   rw [prim_run_fix_irrelevant hash ops _ h]
@@ -198,7 +199,7 @@ theorem clear_after_emit_all_safe (hash : Nat → Nat) (s : Prim.St) :
 example : ClearsSafe (fun x => x) Prim.init [.intern [none, some 1], .emit .all, .clear, .intern [none]] := by
   simp [ClearsSafe, Prim.step, Prim.init]
 
-/-- **witness** (the code as written): `intern [NULL]`, `clear_shrink`, `intern [NULL]` returns
+/-- **witness** (pinned upstream code, before f8726ff): `intern [NULL]`, `clear_shrink`, `intern [NULL]` returns
     group id 0 although the store is empty (`len() = 0`), and a following `emit(All)` panics
     (`values.len() - null_idx - 1` underflows in `build_primitive`). -/
 theorem primitive_clear_keeps_null_group :
@@ -208,14 +209,14 @@ theorem primitive_clear_keeps_null_group :
     (Spec.run ([] : List (Option Nat)) [.intern [none], .clear, .intern [none], .emit .all]).2
       = [.ids [0], .unit, .ids [0], .keys [none]] := by decide
 
-theorem primitive_refines_spec_as_written_fails : ¬ primitive_refines_spec_as_written_statement := by
+theorem primitive_refines_spec_upstream_fails : ¬ primitive_refines_spec_upstream_statement := by
   intro h
   have := h (fun x => x) [.intern [none], .clear, .intern [none], .emit .all]
   revert this
   decide
 
-/-- **witness** for `GroupValuesBytes` / `GroupValuesBytesView`: `clear_shrink` drops the map but
-    keeps `num_groups`, so `intern ["a","b"]; clear_shrink; intern ["c"]` numbers the only live key 2
+/-- **witness** for the upstream `GroupValuesBytes` / `GroupValuesBytesView`: `clear_shrink` dropped the
+    map but kept `num_groups`, so `intern ["a","b"]; clear_shrink; intern ["c"]` numbers the only live key 2
     and reports `len() = 3`. -/
 theorem bytes_clear_keeps_num_groups :
     let r := Bytes.run false Bytes.init [.intern [some 1, some 2], .clear, .intern [some 3]]
